@@ -143,6 +143,14 @@ def cases(draw, mode):
     bad = []
     if from_files and present != "db" and draw(st.integers(0, 2)) == 0:
         bad = sorted(draw(st.sets(st.sampled_from(keys), max_size=max(1, n // 3))))
+    # loaded dict records whose "info" entry does not lead to a source (null, text, list, empty mapping): valid
+    # records all the same, their origin is the member they were loaded from
+    odd_info = {}
+    if family == "dict" and from_files and draw(st.integers(0, 2)) == 0:
+        for k in keys:
+            kind = draw(st.sampled_from(["", "", "none", "str", "list", "empty"]))
+            if kind:
+                odd_info[k] = kind
     writer = draw(st.sampled_from(WRITERS[family]))
     source_style = draw(st.sampled_from(["{k}.json", "sub/{k}.json", "{k}", "{k}.txt.gz"])) if not from_files else None
     if source_style == "{k}" and any("." in k for k in keys):
@@ -165,6 +173,7 @@ def cases(draw, mode):
         "layout": layout,
         "outcomes": outcomes,
         "bad": bad,
+        "odd_info": odd_info,
         "writer": writer,
         "source_style": source_style,
         "exec": execution,
@@ -260,6 +269,9 @@ def expected_value(case, key, fate):
         rec = {"key": key, "trace": list(fate["trace"]), "source": rec_source(case, key), "falsy": fate["falsy"]}
         if fate.get("unw") == "json":
             rec["unw"] = {key}
+        odd = case.get("odd_info", {}).get(key)
+        if odd:
+            rec["info"] = {"none": None, "str": "about this record", "list": [1, 2], "empty": {}}[odd]
         return {"rec": rec}
     header = ["key", "v"] + [f"s{i}" for i in fate["trace"]]
     rows = [[key, str(r + 1)] + [str(i * 10 + r) for i in fate["trace"]] for r in range(2)]
@@ -445,7 +457,7 @@ def write_inputs(case, indir):
         if family == "seqs":
             text = f">k_{key}\nACGTAC\n>other\nAC--GT\n" if not bad else f">k_{key}\nACGTJJ\n>other\nACGT\n"
         elif family == "dict":
-            text = f"{'!' if bad else ''}{key}|{key}.{SUFFIX[family]}\n"
+            text = f"{'!' if bad else ''}{key}|{key}.{SUFFIX[family]}|{case.get('odd_info', {}).get(key, '')}\n"
         else:
             text = f"key\tv\n{key}\t1\n{key}\t2\n" if not bad else f"key\tv\n{key}\t1\textra\n{key}\t2\n"
         with open(path, "w") as f:
